@@ -197,7 +197,7 @@ func runC03Corpus(c *Ctx, phase string) {
 	if phase == "corpus" {
 		c.Meta("hostile inputs to all three functions (as expression, as allowed entry, as element of the ValidateLicenses slice): every byte prefix, every single-token deletion and every single-token "+
 			"insertion (each of the 20 alphabet kinds at each position) of generated valid expressions; all token sequences up to length L over the C05 alphabet in loose and tight spacing; random byte strings "+
-			"(NUL, tab/newline, non-ASCII, invalid UTF-8, grammar fragments); nil/empty/large slices; extremes (10^6-byte id, 10^6 spaces, long chains, nesting ladders). distinct = distinct input string; "+
+			"(NUL, tab/newline, non-ASCII, invalid UTF-8, grammar fragments); valid single-term pairs of every listed id and spelling and valid compound expressions against related allowed lists (matching and expansion code); nil/empty/large slices; extremes (10^6-byte id, 10^6 spaces, long chains, nesting ladders). distinct = distinct input string; "+
 			"every input is non-trivial (each is a different hostile string)",
 			false, fmt.Sprintf("valid expressions mutated=%d; exhaustive token sequences to length %d; random byte strings=%d; nesting ladder to depth %s", c.Pick(400, 6000), c.Pick(3, 4), c.Pick(20000, 500000), map[bool]string{false: "2e4", true: "1e7"}[c.Thorough()]),
 			"a panic is a violation by definition: no reference needed", "an unrecoverable death of a child is attributed to the call journalled as in flight")
@@ -207,6 +207,8 @@ func runC03Corpus(c *Ctx, phase string) {
 			c.Floor("last_"+gen.KindNames[k], 20)
 		}
 		c.Floor("slice_cases", 10)
+		c.Floor("valid_term_pairs", 20000)
+		c.Floor("valid_trees", 1000)
 	}
 	// (1) mutations of valid expressions
 	nValid := c.Pick(400, 6000)
@@ -308,6 +310,69 @@ func runC03Corpus(c *Ctx, phase string) {
 		c.hostileCalls(b.String(), "")
 		if c.WantSample() && i%977 == 0 {
 			c.Sample(map[string]any{"random_bytes": ev.QS(b.String())})
+		}
+	}
+	// (5) valid inputs through the matching and expansion code: a panic there is as much a violation as one in the parser
+	{
+		var all []gen.Term
+		for _, id := range u.AllLicense {
+			for _, t := range spellVariants(u, id, false) {
+				all = append(all, t)
+				t.Exc = u.Exceptions[len(all)%len(u.Exceptions)]
+				all = append(all, t)
+			}
+		}
+		all = append(all, refTerms()...)
+		for i, t := range all {
+			if !c.Mine(i) {
+				continue
+			}
+			r := gen.NewRand(c.Seed, 0xC037, uint64(i))
+			tx := t.Text()
+			for p := 0; p < 10; p++ {
+				var o gen.Term
+				switch p % 3 {
+				case 0:
+					o = all[r.Intn(len(all))]
+				case 1:
+					o = relatedTerm(u, r, t)
+				default:
+					o = gen.Term{ID: r.Pick(u.InTable)}
+					if r.Chance(1, 2) && u.SpellOK(o.ID, gen.SpPlus) {
+						o.Spell = gen.SpPlus
+					}
+				}
+				ox := o.Text()
+				for _, pair := range [][2]string{{tx, ox}, {ox, tx}} {
+					if res := c.Sat(pair[0], []string{pair[1]}); res.Panic != "" {
+						c.Violation(panicKey("Satisfies", res.Panic), "C03.panic", CallCase{Fn: "Satisfies", Expr: ev.QS(pair[0]), List: []ev.QS{ev.QS(pair[1])}}, "Satisfies(%q,[%q]) panicked: %s", pair[0], pair[1], res.Panic)
+					}
+				}
+				c.Inc("valid_term_pairs")
+			}
+		}
+		nTrees := c.Pick(1500, 20000)
+		for i := 0; i < nTrees; i++ {
+			if !c.Mine(i) {
+				continue
+			}
+			tc := genRandomTree(c, "C03v", i, 512)
+			r := gen.NewRand(c.Seed, 0xC038, uint64(i))
+			text := string(tc.Text)
+			var allowed []string
+			for _, t := range tc.Terms {
+				if r.Chance(1, 2) {
+					allowed = append(allowed, t.Text())
+				}
+				if r.Chance(1, 3) {
+					allowed = append(allowed, relatedTerm(u, r, t).Text())
+				}
+			}
+			allowed = append(allowed, u.RandomTerm(r).Text())
+			doCall(c, CallCase{Fn: "Satisfies", Expr: ev.QS(text), List: ev.QSs(allowed)})
+			doCall(c, CallCase{Fn: "ExtractLicenses", Expr: ev.QS(text)})
+			c.Inc("valid_trees")
+			c.Distinct(gen.HashStr("tree", text))
 		}
 	}
 	// (4) slices
